@@ -6,6 +6,42 @@ use std::sync::{Arc, Mutex};
 use std::time::Duration;
 use tower_resilience_healthcheck::{HealthCheckConfig, HealthCheckWrapper, HealthStatus, SelectionStrategy};
 
+use std::sync::atomic::{AtomicU64, Ordering};
+use tower::Layer;
+use tower_resilience_circuitbreaker::{CircuitBreakerLayer, CircuitState};
+use tower_resilience_core::{HealthTriggerable, SharedHealthTrigger};
+
+/// counting trigger (cfg.trig = 1): how often each notification arrived
+#[derive(Default)]
+struct CountTrigger {
+    u: AtomicU64,
+    h: AtomicU64,
+    d: AtomicU64,
+}
+impl HealthTriggerable for CountTrigger {
+    fn trigger_unhealthy(&self) {
+        self.u.fetch_add(1, Ordering::SeqCst);
+    }
+    fn trigger_healthy(&self) {
+        self.h.fetch_add(1, Ordering::SeqCst);
+    }
+    fn trigger_degraded(&self) {
+        self.d.fetch_add(1, Ordering::SeqCst);
+    }
+}
+#[derive(Clone)]
+struct Nop;
+impl tower::Service<u32> for Nop {
+    type Response = u32;
+    type Error = std::io::Error;
+    type Future = std::future::Ready<Result<u32, std::io::Error>>;
+    fn poll_ready(&mut self, _: &mut std::task::Context<'_>) -> std::task::Poll<Result<(), Self::Error>> {
+        std::task::Poll::Ready(Ok(()))
+    }
+    fn call(&mut self, r: u32) -> Self::Future {
+        std::future::ready(Ok(r))
+    }
+}
 const INTERVAL: u64 = 10;
 const TIMEOUT: u64 = 3;
 fn st_name(s: HealthStatus) -> &'static str {
@@ -98,16 +134,31 @@ async fn run(cfg: &Value, rounds: &[Vec<String>], sels: &[Vec<(String, usize)>],
         view = Some(json!({"e":"cfgview","tmo": c.timeout().as_millis() as u64, "intv": c.interval().as_millis() as u64,
                            "delay": c.initial_delay().as_millis() as u64, "ft": c.failure_threshold(), "sth": c.success_threshold()}));
     };
+    // cfg.trig = 1: a counting trigger and a real circuit breaker (its open period far longer than any run) are
+    // registered; through the wrapper builder, or - for separately built configurations - through the config builder
+    let trig = cfg["trig"].as_u64().unwrap_or(0) == 1;
+    let counter = Arc::new(CountTrigger::default());
+    let breaker = CircuitBreakerLayer::builder().wait_duration_in_open(Duration::from_secs(3600)).build().layer(Nop);
+    let brk_view = breaker.clone();
+    let t1: SharedHealthTrigger = counter.clone();
+    let t2: SharedHealthTrigger = Arc::new(breaker);
     let mut b = match cfg["ctor"].as_u64().unwrap_or(0) {
         1 => {
-            let c = HealthCheckConfig::builder().interval(Duration::from_millis(INTERVAL)).initial_delay(Duration::ZERO).timeout(tmo)
-                .failure_threshold(ft).success_threshold(sth).selection_strategy(strat).build();
+            let mut cb = HealthCheckConfig::builder().interval(Duration::from_millis(INTERVAL)).initial_delay(Duration::ZERO).timeout(tmo);
+            if trig {
+                cb = cb.with_trigger(t1.clone()).with_trigger(t2.clone());
+            }
+            let c = cb.failure_threshold(ft).success_threshold(sth).selection_strategy(strat).build();
             see(&c);
             HealthCheckWrapper::builder().with_checker(checker).with_config(c)
         }
         2 => {
-            let c = HealthCheckConfig::builder().selection_strategy(strat).success_threshold(sth).failure_threshold(ft).timeout(tmo)
-                .initial_delay(Duration::ZERO).interval(Duration::from_millis(INTERVAL)).build();
+            let mut cb = HealthCheckConfig::builder().selection_strategy(strat).success_threshold(sth).failure_threshold(ft).timeout(tmo)
+                .initial_delay(Duration::ZERO).interval(Duration::from_millis(INTERVAL));
+            if trig {
+                cb = cb.with_trigger(t2.clone()).with_trigger(t1.clone());
+            }
+            let c = cb.build();
             see(&c);
             HealthCheckWrapper::builder().with_config(c).with_checker(checker)
         }
@@ -120,6 +171,10 @@ async fn run(cfg: &Value, rounds: &[Vec<String>], sels: &[Vec<(String, usize)>],
             .with_success_threshold(sth)
             .with_selection_strategy(strat),
     };
+    if trig && cfg["ctor"].as_u64().unwrap_or(0) == 0 {
+        b = b.with_trigger(t1.clone()).with_trigger(t2.clone());
+    }
+    let mut seen = (0u64, 0u64, 0u64);
     for r in 0..n {
         b = b.with_context(r, format!("r{}", r + 1));
     }
@@ -145,11 +200,24 @@ async fn run(cfg: &Value, rounds: &[Vec<String>], sels: &[Vec<(String, usize)>],
             let g = script.lock().unwrap();
             g.done.iter().map(|&d| if d >= k as u64 + 1 { 1 } else { 0 }).collect()
         };
-        out.push(json!({"e":"round","k":k,"res":res,
+        let mut line = json!({"e":"round","k":k,"res":res,
             "status": det.iter().map(|d| st_name(d.status)).collect::<Vec<_>>(),
             "cf": det.iter().map(|d| d.consecutive_failures).collect::<Vec<_>>(),
             "cs": det.iter().map(|d| d.consecutive_successes).collect::<Vec<_>>(),
-            "checks": checks}).to_string());
+            "checks": checks});
+        if trig {
+            let now = (counter.u.load(Ordering::SeqCst), counter.h.load(Ordering::SeqCst), counter.d.load(Ordering::SeqCst));
+            line["tu"] = json!(now.0 - seen.0);
+            line["th"] = json!(now.1 - seen.1);
+            line["td"] = json!(now.2 - seen.2);
+            seen = now;
+            line["brk"] = json!(match brk_view.state_sync() {
+                CircuitState::Closed => "closed",
+                CircuitState::Open => "open",
+                CircuitState::HalfOpen => "halfopen",
+            });
+        }
+        out.push(line.to_string());
         ne += 1;
         for (kind, m) in &sels[k] {
             for _ in 0..*m {
@@ -172,7 +240,7 @@ pub fn run_health(seed: u64, size: Size, out: &mut Vec<String>) -> (usize, usize
         let n = 1 + rng.below(if size == Size::Quick { 3 } else { 5 });
         let long_tmo = rng.pct(30);
         let cfg = json!({"n": n, "ft": 1 + rng.below(3), "sth": 1 + rng.below(3), "strat": *rng.pick(&["first", "rr", "rr", "prefer"]),
-                         "tmo": if long_tmo { 12 } else { TIMEOUT }, "ctor": rng.below(3)});
+                         "tmo": if long_tmo { 12 } else { TIMEOUT }, "ctor": rng.below(3), "trig": if rng.pct(50) { 1 } else { 0 }});
         // biased result alphabets so that runs of successes and failures of every length occur
         let bias = rng.below(3);
         let mut rounds = vec![];
